@@ -157,10 +157,8 @@ func (p *Parser) parseStatement() ast.Statement {
 	switch p.curToken.Type {
 	case token.HTML:
 		return p.parseHTMLStmt()
-	case token.LBRACES:
-		return p.parseEmbeddedCode()
-	case token.SEMI:
-		return p.parseEmbeddedCode()
+	case token.LBRACES, token.SEMI:
+		return p.parseBracesStmt()
 	case token.IF:
 		return p.parseIfStmt()
 	case token.FOR:
@@ -190,6 +188,26 @@ func (p *Parser) parseStatement() ast.Statement {
 	default:
 		return nil
 	}
+}
+
+// parseBracesStmt parses one statement of a "{{ ... }}" block and
+// makes sure that the block goes on (";") or is closed ("}}") after it
+func (p *Parser) parseBracesStmt() ast.Statement {
+	errCount := len(p.errors)
+	stmt := p.parseEmbeddedCode()
+
+	if len(p.errors) != errCount || p.curTokenIs(token.RBRACES) || p.peekTokenIs(token.RBRACES, token.SEMI) {
+		return stmt
+	}
+
+	p.newError(
+		p.peekToken.ErrorLine(),
+		fail.ErrWrongNextToken,
+		token.String(token.RBRACES),
+		token.String(p.peekToken.Type),
+	)
+
+	return nil
 }
 
 func (p *Parser) parseEmbeddedCode() ast.Statement {
